@@ -2,8 +2,8 @@
 from vfam import *  # noqa
 from remerkleable.tree import to_gindex, get_depth
 
-THEOREMS = ["C12_default_node", "C12_zero_wellformed", "C12_equals_explicit"]
-PARTIAL = ["C12_navigable (no summary in the way of fixed structure) and the encoding of the default are covered by the correspondence (navigable, default_encoding observables), not yet by a theorem"]
+THEOREMS = ["C12_default_node", "C12_default_is_constructed", "C12_default_encoding", "C12_container_navigable", "C12_vector_navigable", "C12_zero_wellformed", "C12_equals_explicit"]
+PARTIAL = ["the default backing is proved to be the constructor's backing of the zero value for every type (same tree), with the zero value's encoding and root, and container fields / composite vector elements are navigable; omitted container fields in a constructor call (mk_container_partial) and packed / bitfield chunk navigation are covered by the correspondence (navigable, default_encoding, omitted-fields observables)"]
 COQ_IMPORTS = ["RM.Types", "RMR.RunV"]
 COQ_FN = "RunV.run_c12"
 COQ_CASE_TY = "(ty * list N)"
